@@ -859,6 +859,7 @@ class Lexer:
                         source=self.source,
                     )
                 )
+                self.start = self.pos
                 continue
 
             if kind == "RAW":
@@ -895,6 +896,7 @@ class Lexer:
                         source=self.source,
                     )
                 )
+                self.start = self.pos
                 continue
 
             if kind == "COMMENT_TAG":
@@ -1126,6 +1128,7 @@ class Lexer:
                         )
                         self.wc.clear()
                         self.tag_name = ""
+                        self.start = self.pos
                         break
                 elif tag_name == "raw":
                     raw_depth += 1
